@@ -108,7 +108,13 @@ impl FeelNumber {
   }
   ///
   pub fn even(&self) -> bool {
-    dec_is_zero(&dec_remainder(&self.0, &DEC_TWO))
+    let remainder = dec_remainder(&self.0, &DEC_TWO);
+    if dec_is_finite(&remainder) {
+      dec_is_zero(&remainder)
+    } else {
+      // the quotient has more than 34 digits, so the number is a multiple of ten
+      dec_is_finite(&self.0)
+    }
   }
   ///
   pub fn exp(&self) -> Self {
@@ -124,7 +130,8 @@ impl FeelNumber {
   }
   ///
   pub fn is_integer(&self) -> bool {
-    dec_is_integer(&self.0)
+    // compare the value with its integral part (the exponent of the representation does not matter)
+    dec_is_finite(&self.0) && dec_is_zero(&dec_compare(&self.0, &dec_trunc(&self.0)))
   }
   ///
   pub fn is_one(&self) -> bool {
@@ -149,7 +156,7 @@ impl FeelNumber {
   }
   ///
   pub fn odd(&self) -> bool {
-    dec_is_integer(&self.0) && !dec_is_zero(&dec_remainder(&self.0, &DEC_TWO))
+    self.is_integer() && !self.even()
   }
   ///
   pub fn pow(&self, rhs: &FeelNumber) -> Option<Self> {
